@@ -1,24 +1,32 @@
+_MODS = ['coinswap', 'erc20', 'csr', 'inflation', 'epochs', 'govshuttle', 'onboarding']
+_FIELDS = ['pools', 'pool-by-lpt-denom', 'coinswap-params', 'token-pairs', 'token-pair-by-token', 'token-pair-by-id', 'erc20-params', 'csrs', 'csr-by-nft', 'csr-by-contract', 'turnstile-address', 'csr-params', 'port-address', 'epoch-infos', 'current-epoch', 'period', 'skipped-epochs', 'epochs-per-period', 'epoch-identifier', 'inflation-params', 'onboarding-params']
+
+
+def _codes():
+    c = {}
+    for i, m in enumerate(_MODS):
+        c[10 + i] = ("model-validate-differs-from-ValidateGenesis-on-export:" + m, "mismatch")
+        c[30 + i] = ("model-export-of-import-differs-from-second-export:" + m, "mismatch")
+        c[100 + i] = ("exported-genesis-fails-own-validation:" + m, "monitor")
+        c[120 + i] = ("second-export-differs-from-first:" + m, "monitor")
+        c[130 + i] = ("second-export-raw-json-differs-from-first:" + m, "monitor")
+    for i, f in enumerate(_FIELDS):
+        c[400 + i] = ("model-answer-differs-from-reimported-chain:" + f, "mismatch")
+        c[700 + i] = ("model-answer-from-export-differs-from-live-chain:" + f, "mismatch")
+        c[1400 + i] = ("query-answer-differs-after-reimport:" + f, "monitor")
+    c[20] = ("model-import-definedness-differs-from-InitChain", "mismatch")
+    c[50] = ("model-validate-differs-from-ValidateGenesis-on-malformed-document", "mismatch")
+    c[60] = ("recomputed-provision-differs", "mismatch")
+    c[110] = ("initchain-from-export-fails", "monitor")
+    return c
+
+
 PROP = dict(
     title="Exported genesis is complete: export, import, export is a fixed point",
     suites=["C18"],
     coq=["Properties/C18", "Check/GenesisCheck"],
     agree=[],
-    codes={
-        "C18": {
-            1: ("model-validate-differs-from-ValidateGenesis-on-export", "mismatch"),
-            2: ("model-import-definedness-differs-from-InitChain", "mismatch"),
-            3: ("model-export-of-import-differs-from-second-export", "mismatch"),
-            4: ("model-answers-differ-from-reimported-chain", "mismatch"),
-            5: ("model-validate-differs-from-ValidateGenesis-on-malformed-document", "mismatch"),
-            6: ("recomputed-provision-differs", "mismatch"),
-            7: ("model-answers-from-export-differ-from-live-chain", "mismatch"),
-            10: ("exported-genesis-fails-own-validation", "monitor"),
-            11: ("initchain-from-export-fails", "monitor"),
-            12: ("second-export-differs-from-first", "monitor"),
-            13: ("second-export-raw-json-differs-from-first", "monitor"),
-            14: ("query-answer-differs-after-reimport", "monitor"),
-        }
-    },
+    codes={"C18": _codes()},
     level="proof",
     technique="Coq proof (reachable-state invariant, all histories) over a model of the seven modules' export/import/validate "
               "+ vm_compute correspondence against real export, ValidateGenesis, InitChain of a fresh app from the whole export, second export and module queries",
